@@ -284,7 +284,11 @@ func c15(r *core.Run) {
 		}
 	}
 	if inbox == nil || subCall == nil || pub == nil || add == nil {
-		r.Bad("S1", core.FuncName(qev), "anchors", p.Pos(qev.Pos()), fmt.Sprintf("inbox=%v subscribe=%v publish=%v add=%v", inbox != nil, subCall != nil, pub != nil, add != nil))
+		if inbox == nil && subCall != nil {
+			r.Bad("S1", core.FuncName(qev), "subject-is-a-fresh-NewInbox", p.InstrPos(subCall), "the query subject is not the result of nats.NewInbox() obtained for this query event (subscribed on "+valDesc(subCall.Common().Args[0])+"): a subject built from shared state can repeat, so two query events share a subject - a query request is answered twice and reaches the wrong callback")
+		} else {
+			r.Bad("S1", core.FuncName(qev), "anchors", p.Pos(qev.Pos()), fmt.Sprintf("inbox=%v subscribe=%v publish=%v add=%v", inbox != nil, subCall != nil, pub != nil, add != nil))
+		}
 	} else {
 		sameSub := subCall.Common().Args[0] == inbox.Value()
 		// published payload: struct whose Subject field is the inbox
